@@ -103,7 +103,8 @@ type RunOpts struct {
 // RunJob explores all paths of one harness instance.
 func (e *Engine) RunJob(job Job, sol *smt.Solver, opts RunOpts) *JobResult {
 	res := e.runJob(job, sol, opts)
-	if job.AbstractCRC && res.NeedExact {
+	// (when a refined, replayable violation exists already, the exact re-run would add nothing)
+	if job.AbstractCRC && res.NeedExact && len(res.Violations) == 0 {
 		exact := job
 		exact.AbstractCRC = false
 		r2 := e.runJob(exact, sol, opts)
